@@ -272,6 +272,10 @@ type Sim struct {
 
 	// QuiesceCheck is called at every quiescent point (try-lock probes).
 	QuiesceCheck func()
+	// AfterStep is called at every quiescent point, i.e. after the single
+	// goroutine released by the previous decision has run as far as it can:
+	// the place to apply model effects in exactly the order of the real ones.
+	AfterStep func()
 	// OnPark may run interfering operations when a goroutine parks at a
 	// site; it returns true if it wants the goroutine kept parked.
 	OnPark func(p *Parked)
@@ -279,13 +283,23 @@ type Sim struct {
 	// ReleaseLog lists, in order, every goroutine release (name@site).
 	ReleaseLog []string
 
+	statMu   sync.Mutex // only contended in the free-running race mode
 	taskSeq  int
 	inOnPark bool
 	Preempts int
 }
 
-func (m *Sim) Fault(kind string) { m.Faults[kind]++; m.Sig = append(m.Sig, "f:"+kind) }
-func (m *Sim) Probe(name string) { m.Probes[name]++ }
+func (m *Sim) Fault(kind string) {
+	m.statMu.Lock()
+	m.Faults[kind]++
+	m.Sig = append(m.Sig, "f:"+kind)
+	m.statMu.Unlock()
+}
+func (m *Sim) Probe(name string) {
+	m.statMu.Lock()
+	m.Probes[name]++
+	m.statMu.Unlock()
+}
 func (m *Sim) Logf(format string, a ...interface{}) {
 	if len(m.Trace) < 4000 {
 		m.Trace = append(m.Trace, fmt.Sprintf("t=%v ", time.Since(m.Start))+fmt.Sprintf(format, a...))
@@ -306,6 +320,9 @@ func (m *Sim) Settle() {
 	for {
 		synctest.Wait()
 		m.S.steps.Add(1)
+		if m.AfterStep != nil {
+			m.AfterStep()
+		}
 		if m.QuiesceCheck != nil {
 			m.QuiesceCheck()
 		}
